@@ -186,7 +186,8 @@ CLAIMS = {
              "is reported on every run, which no unit test against mocks can notice. A positive control shows UpdateGlobalIndex does reach "
              "swap and oracle. NOT decided: 'can always exit from every reachable state' (liveness; depends on arithmetic over histories)."
              " Also, a structural necessary condition of the exit half: no division reachable from an exit handler can panic - every divisor is a "
-             "non-zero constant, an exchange rate the code keeps non-zero by construction, or a value observed non-zero on every path to the call.",
+             "non-zero constant, an exchange rate the code keeps non-zero by construction, or a value observed non-zero on every path to the call; "
+             "and (C09.e) SignedInt::from_subtraction sets its negative flag only where a < b was observed (a negative zero makes the withdraw path refuse).",
         technique="cross-contract call/query graph closure over MIR-extracted message constructions",
         ref="6/C09"),
     "C19": dict(
